@@ -2,6 +2,10 @@ package main
 
 import (
 	"encoding/json"
+	"go/token"
+	"go/types"
+
+	"golang.org/x/tools/go/ssa"
 	"flag"
 	"fmt"
 	"os"
@@ -271,6 +275,22 @@ func doDump(p *Prog, what, rules string) {
 	case "symbols":
 		b, _ := json.MarshalIndent(p.inventory(), "", " ")
 		fmt.Println(string(b))
+	case "divs":
+		for _, f := range p.Funcs {
+			instrsOf(f, func(in ssa.Instruction) {
+				bo, ok := in.(*ssa.BinOp)
+				if !ok || (bo.Op != token.QUO && bo.Op != token.REM) {
+					return
+				}
+				if b, ok := bo.Type().Underlying().(*types.Basic); !ok || b.Info()&types.IsInteger == 0 {
+					return
+				}
+				if _, isC := bo.Y.(*ssa.Const); isC {
+					return
+				}
+				fmt.Printf("%s %s  %s by %s\n", p.instrPos(bo), funcKey(f), bo.Op, p.pureKey(bo.Y))
+			})
+		}
 	case "renames":
 		for _, n := range p.RenameNotes {
 			fmt.Println(n)
